@@ -235,6 +235,31 @@ class RF:
     def atoms(self):
         return self.n.atoms() | self.d.atoms()
 
+    def subst(self, mapping) -> "RF":
+        """Replace plain symbols by values (numbers or RF). Symbols inside opaque function atoms are untouched."""
+        if not mapping:
+            return self
+
+        def ev(p: Poly) -> "RF":
+            tot = RF.of(0)
+            for m, c in p.t.items():
+                term = RF.of(c)
+                for a, e in m:
+                    base = RF.of(mapping[a]) if (isinstance(a, str) and a in mapping) else RF(Poly.atom(a))
+                    term = term * (base ** e)
+                tot = tot + term
+            return tot
+
+        return ev(self.n) / ev(self.d)
+
+    def plain_symbol(self):
+        """Name if this is exactly one symbol with coefficient 1, else None."""
+        if self.d.is_const() and len(self.n.t) == 1:
+            (m, c), = self.n.t.items()
+            if c == 1 and len(m) == 1 and m[0][1] == 1 and isinstance(m[0][0], str):
+                return m[0][0]
+        return None
+
     def __repr__(self):
         if self.d.is_const():
             return repr(self.n)
